@@ -1,5 +1,6 @@
 import SamplyModel.Proto
 import SamplyModel.Model.Candidates
+import SamplyModel.Model.CandidateFiles
 /-!
 Line protocol for C06 (see `harness/src/bin/c06.rs` for the grammar of the op lines).
 
@@ -138,11 +139,38 @@ def parseFatMembers (ls : List String) : Option (List FatMemberLine) :=
       pure ⟨optStr a, optStr u, s, b⟩
     | _ => none
 
+def hexByte? (a b : Char) : Option UInt8 := do
+  let x ← hexDigit? a
+  let y ← hexDigit? b
+  pure (UInt8.ofNat (x * 16 + y))
+
+def unhex? : List Char → Option (List UInt8)
+  | [] => some []
+  | [_] => none
+  | a :: b :: rest => do
+    let x ← hexByte? a b
+    let xs ← unhex? rest
+    pure (x :: xs)
+
+/-- The CRC of a debuglink candidate. For a `raw:<hex>` reference the bytes are in the op line, and the model runs
+the chunked loop of elf.rs:181-200 with CRC-32 on them itself; otherwise the value the harness states
+(its own CRC-32 of the whole file). -/
+def candCrc (ref : String) (statedCrc : Nat) : Nat :=
+  match strip? "raw:" ref with
+  | some h =>
+    match unhex? h.toList with
+    | some bytes =>
+      match crcChunked crc32.step crc32.init debugLinkChunk bytes with
+      | .ok s => crc32.fin s
+      | _ => statedCrc
+    | none => statedCrc
+  | none => statedCrc
+
 def dlCands (ls : List String) : Option (List (DlCand String)) :=
   ls.mapM fun l =>
     match words l with
     | "cand" :: _ref :: rest =>
-      some ⟨key rest "readable" = "1", nat! (key rest "crc"), key rest "parses" = "1", key rest "marker"⟩
+      some ⟨key rest "readable" = "1", candCrc _ref (nat! (key rest "crc")), key rest "parses" = "1", key rest "marker"⟩
     | _ => none
 
 def supCands (ls : List String) : Option (List (SupCand Id String)) :=
@@ -150,6 +178,52 @@ def supCands (ls : List String) : Option (List (SupCand Id String)) :=
     match words l with
     | "cand" :: _ref :: rest =>
       some ⟨key rest "readable" = "1", key rest "object" = "1", optStr (key rest "buildid"), key rest "marker"⟩
+    | _ => none
+
+/-- the words of every `cand` line after the reference (`none` for a malformed line) -/
+def candWords (ls : List String) : Option (List (List String)) :=
+  ls.mapM fun l =>
+    match words l with
+    | "cand" :: _ref :: rest => some rest
+    | _ => none
+
+/-- a stated value: `none` when the key is missing or `-` -/
+def stated (ws : List String) (k : String) : Option String :=
+  let v := key ws k
+  if v = "" ∨ v = "-" then none else some v
+
+structure BpLine where
+  cand : BpCand Id
+  mark : String
+  stale : Bool
+
+def bpLines (ls : List String) : Option (List BpLine) :=
+  ls.mapM fun l =>
+    match words l with
+    | "cand" :: _ref :: rest => do
+      let own ← parseDid (key rest "own")
+      let side : Load (DebugId Id) ←
+        (let v := key rest "side"
+         if v = "open" then some .unreadable
+         else if v = "parse" then some .unparsable
+         else (strip? "ok:" v).bind parseDid |>.map .ok)
+      pure ⟨⟨own, side⟩, key rest "mark", key rest "stale" = "1"⟩
+    | _ => none
+
+/-- `cache <ref> <view>` lines of a `dyld` case: what looking for the dylib in that cache yields, reduced to the
+debug id of the result -/
+def cacheLines (bin : Bool) (ls : List String) : Option (List (Load (Option (DebugId Id)))) :=
+  ls.mapM fun l =>
+    match words l with
+    | "cache" :: _ref :: v :: _ =>
+      if bin then (parseBinRes v).map fun
+        | .ok i => .ok i.debugId
+        | .unreadable => .unreadable
+        | .unparsable => .unparsable
+      else (parseSymRes v).map fun
+        | .ok i => .ok (some i.debugId)
+        | .unreadable => .unreadable
+        | .unparsable => .unparsable
     | _ => none
 
 /-! ### model -/
@@ -175,17 +249,41 @@ def model (ls : List String) : List String :=
     let ws := words hd
     match ws with
     | ["symmap", r] =>
-      match candLines parseSymRes rest with
-      | none => ["bad-op"]
-      | some cs =>
+      match candLines parseSymRes rest, candWords rest with
+      | some cs, some cws =>
         if r = "none" then showSymOut (loadSymbolMap native none cs) else
         match parseDid r with
         | none => ["bad-op"]
-        | some d => showSymOut (loadSymbolMap native (some d) cs)
+        | some d =>
+          match loadSymbolMap native (some d) cs with
+          | .ok k m =>
+            -- the map is built from candidate `k`: it shows what that file shows (if the line states it)
+            match (cws[k]?).bind (stated · "mark") with
+            | some mk => [s!"ok {showDid m.debugId} from {k} shows {mk}"]
+            | none => showSymOut (.ok k m)
+          | out => showSymOut out
+      | _, _ => ["bad-op"]
+    | ["symidx", r] =>
+      match parseDid r, bpLines rest with
+      | some d, some ls =>
+        match loadSymbolMapBp native (some d) (ls.map (·.cand)) with
+        | (.ok k m, _) =>
+          -- lookups are served from the text of candidate `k` (`BpCand.content`)
+          [s!"ok {showDid m.debugId} from {k} shows {((ls[k]?).map (·.mark)).getD "?"}"]
+        | (out, _) => showSymOut out
+      | _, _ => ["bad-op"]
     | "binary" :: kvs =>
       match candLines parseBinRes rest with
       | none => ["bad-op"]
       | some cs => showBinOut (loadBinary native (parseBinReq kvs) cs)
+    | ["dyld", what, d] =>
+      match parseDisamb d, cacheLines (what = "bin") rest with
+      | some dis, some caches =>
+        match loadForDyldCacheImage (fun (x : Option (DebugId Id)) => x) dis caches with
+        | .ok a => ["ok " ++ showODid a]
+        | .noCache => ["err no-dyld-cache"]
+        | .lastErr e => ["err " ++ showErr e]
+      | _, _ => ["bad-op"]
     | ["fat", d] =>
       match parseDisamb d, parseFatMembers rest with
       | some _, some [] =>
@@ -278,27 +376,83 @@ def judge (ops impl : List String) : Bool × String :=
     if impl.contains "panic" then (false, "[panic] the request neither succeeded nor failed cleanly") else
     match words hd with
     | ["symmap", r] =>
-      match candLines parseSymRes rest, impl with
-      | some cs, [l] =>
+      match candLines parseSymRes rest, candWords rest, impl with
+      | some cs, some cws, [l] =>
+        -- ground truth first: a generated file's spec says which id it carries; what samply reports for it alone
+        -- (the description) must agree
+        let drift := (cs.zip cws).findSome? fun (c, ws) =>
+          match c, stated ws "truth" with
+          | .single (.ok m), some t => if showDid m.debugId = t then none else some (showDid m.debugId, t)
+          | _, _ => none
+        match drift with
+        | some (got, t) => (false, s!"[id-drift] a candidate that carries {t} is reported as {got}")
+        | none =>
+        -- is candidate `i` a file of build `req`: by ground truth where there is one, else by description
+        let isBuild (req : DebugId Id) (i : Nat) : Bool :=
+          match cs[i]?, cws[i]? with
+          | some c, some ws =>
+            (match c, stated ws "truth" with
+             | .single (.ok _), some t => t == showDid req
+             | .single _, some _ => false
+             | c, _ => symIsBuild req c)
+          | _, _ => false
         match words l with
-        | ["ok", id, "from", k] =>
+        | "ok" :: id :: "from" :: k :: more =>
           match parseDid r with
           | none => (false, "[no-request] a symbol map was handed out although no debug id was requested")
           | some req =>
             if id ≠ showDid req then (false, s!"[wrong-id] requested {showDid req}, the symbol map reports {id}")
-            else match cs[nat! k]? with
-              | none => (false, s!"[not-a-candidate] result attributed to candidate {k} of {cs.length}")
-              | some c =>
-                if symIsBuild req c then (true, "ok")
-                else (false, s!"[wrong-file] candidate {k} is not a file of build {showDid req}")
+            else if (nat! k) ≥ cs.length then (false, s!"[not-a-candidate] result attributed to candidate {k} of {cs.length}")
+            else if !isBuild req (nat! k) then (false, s!"[wrong-file] candidate {k} is not a file of build {showDid req}")
+            else match more with
+              | [] => (true, "ok")
+              | ["shows", mk] =>
+                -- content: what the map shows must be what some candidate *of the requested build* shows
+                -- (its `m=` where the reference is a generated file, else the stated marker)
+                let own (i : Nat) : Option String := (cws[i]?).bind (stated · "mark")
+                if (List.range cs.length).any fun i => isBuild req i && own i == some mk then (true, "ok")
+                else (false, s!"[wrong-content] the map reports {id} but shows {mk}, which no candidate of that build shows")
+              | _ => (false, "bad output")
         | "err" :: _ => (true, "ok")
         | _ => (false, "bad output")
-      | none, _ => (false, "bad-op")
-      | _, _ => (false, "bad output")
+      | none, _, _ => (false, "bad-op")
+      | _, none, _ => (false, "bad-op")
+      | _, _, _ => (false, "bad output")
+    | ["symidx", r] =>
+      match parseDid r, bpLines rest, impl with
+      | some req, some ls, [l] =>
+        match words l with
+        | ["ok", id, "from", k, "shows", mk] =>
+          if id ≠ showDid req then (false, s!"[wrong-id] requested {showDid req}, the symbol map reports {id}")
+          else
+            -- the text that serves the lookups is a `.sym` file's; it must be a file of the requested build
+            let ofBuild := ls.filter fun b => b.cand.own == req
+            match ls[nat! k]? with
+            | none => (false, s!"[not-a-candidate] result attributed to candidate {k} of {ls.length}")
+            | some b =>
+              if b.cand.own != req then
+                (false, s!"[stale-symindex] candidate {k} is a .sym of build {showDid b.cand.own}; with the .symindex next to it the map reports {id} and shows {mk}")
+              else if ofBuild.any fun b => b.mark = mk then (true, "ok")
+              else (false, s!"[wrong-content] the map reports {id} but shows {mk}, which no candidate of that build shows")
+        | "err" :: _ => (true, "ok")
+        | _ => (false, "bad output")
+      | none, _, _ => (false, "bad-op")
+      | _, none, _ => (false, "bad-op")
+      | _, _, _ => (false, "bad output")
     | "binary" :: kvs =>
       match candLines parseBinRes rest, impl with
       | some cs, [l] =>
         let req := parseBinReq kvs
+        -- ground truth of generated files against what samply reports for them alone
+        let drift := (cs.zip ((candWords rest).getD [])).findSome? fun (c, ws) =>
+          match c, stated ws "truth" with
+          | .single (.ok m), some t =>
+            let got := showODid m.debugId ++ ":" ++ showOpt m.codeId
+            if got = t then none else some (got, t)
+          | _, _ => none
+        match drift with
+        | some (got, t) => (false, s!"[id-drift] a candidate that carries {t} is reported as {got}")
+        | none =>
         match words l with
         | ["ok", id, code] =>
           let fromCand := cs.any fun c => (binImages c).any fun i => showODid i.debugId = id && showOpt i.codeId = code
@@ -313,6 +467,22 @@ def judge (ops impl : List String) : Bool × String :=
         | _ => (false, "bad output")
       | none, _ => (false, "bad-op")
       | _, _ => (false, "bad output")
+    | ["dyld", what, d] =>
+      match parseDisamb d, cacheLines (what = "bin") rest, impl with
+      | some dis, some caches, [l] =>
+        match words l with
+        | ["ok", id] =>
+          if !(caches.any fun c => match c with | .ok i => showODid i = id | _ => false) then
+            (false, s!"[not-a-candidate] no cache yields an image with debug id {id}")
+          else match dis with
+            | some (.debugId r) =>
+              if id = showDid r then (true, "ok") else (false, s!"[wrong-id] requested debug id {showDid r}, the result has {id}")
+            | _ => (true, "ok")   -- without a debug id nothing was requested "by id" (lib.rs:501 / :540)
+        | "err" :: _ => (true, "ok")
+        | _ => (false, "bad output")
+      | none, _, _ => (false, "bad-op")
+      | _, none, _ => (false, "bad-op")
+      | _, _, _ => (false, "bad output")
     | ["fat", d] =>
       match parseDisamb d, parseFatMembers rest, impl with
       | some dis, some ms, [b, s] =>
